@@ -1,6 +1,6 @@
-def tiltRangeValidate (min : Rat) (max : Rat) : Py.PyM Unit := do
-  if (min ≥ max) then
+def tiltRangeValidate (min' : Rat) (max' : Rat) : Py.PyM Unit := do
+  if (min' ≥ max') then
     throw Py.PyErr.value
-  if ((min < (-90 : Rat)) ∨ (max > (90 : Rat))) then
+  if ((min' < (-90 : Rat)) ∨ (max' > (90 : Rat))) then
     throw Py.PyErr.value
   return ()
